@@ -45,6 +45,8 @@ Definition dec_op (v : vl) : option xop :=
     match val_bool a with Some b => Some (XOp (Restart b)) | None => None end
   | VL [VN 7; chunks] =>                      (* append while the roller is set to fail *)
     match val_list val_S chunks with Some cs => Some (XAppendFail cs) | None => None end
+  | VL [VN 12; chunks] =>                     (* append; the roller (if called) rotates, then reports failure *)
+    match val_list val_S chunks with Some cs => Some (XAppendFailAfter cs) | None => None end
   | _ => None
   end.
 
